@@ -191,6 +191,12 @@ KNOWN_SHAPES = [
     # repaired shapes, kept as regression inputs
     ("def rb(a: int) -> int:\n\ttotal = 0\n\tfor i in range(a & 3):\n\t\ttotal += i\n\tys = [a, 1, 3]\n\tys.insert(a & 1, 9)\n\treturn total + ys[0] + ys.pop(a & 1)\n", [('rb', [(200,), (7,)], 'int')], 'range-and-index-grouping'),
     ("def dg(a: int, s: str) -> int:\n\td = {'x': a}\n\treturn d.get('y', 0) + len(d) + len(str(a) + s) * 2\n", [('dg', [(3, 'ab')], 'int')], 'call-result-grouping'),
+    # dict.get as an operand through a member receiver / with an operator in the key; comprehensions over the three dict views
+    ('class Bag:\n\titems: dict[str, int]\n\tbonus: int\n\n\tdef __init__(self, n: int) -> None:\n\t\tself.items = {\'a\': n}\n\t\tself.bonus = n * 2\n\n'
+     '\tdef total(self, k: str) -> int:\n\t\treturn self.items.get(k, 0) + self.bonus - self.items.get(\'zz\', 5) * 3\n\n'
+     'def bg(n: int) -> int:\n\td = {2: n, 4: n + 1}\n\treturn Bag(n).total(\'a\') + d.get(1 << 1, 0) + 7 - d.get(n >> 9, 3)\n', [('bg', [(3,), (10,)], 'int')], 'member-dict-get-grouping'),
+    ('def dv(n: int) -> int:\n\td = {1: n + 10, 2: n + 20}\n\tvs = [v for v in d.values()]\n\tks = [k * 100 for k in d.keys()]\n\tws = [v for v in d.values() if v > 15]\n'
+     '\tdd = {k: v + 1 for k, v in d.items()}\n\tee = {v: v for v in d.values()}\n\treturn vs[0] + vs[1] + ks[0] + ks[1] + len(ws) + dd[1] + len(ee) + (1 if n + 10 in ee else 0)\n', [('dv', [(3,), (10,)], 'int')], 'dict-view-comprehensions'),
 ]
 
 
